@@ -10,7 +10,7 @@
    is what the correspondence stage compares bit for bit with CPython. *)
 From Coq Require Import List ZArith Bool QArith Qcanon.
 From Coq Require Import Reals.
-From RxVerif Require Import Math.Exact Math.ExactProofs Math.FloatModel Math.C12Corr Math.SumErrorProofs Math.SumRunningProofs Math.MeanErrorProofs Math.MinMaxFloatProofs Math.FloatOpsProofs Math.VarianceFloatProofs Math.VarianceNonnegProofs Math.WelfordReal Math.WelfordErrorProofs.
+From RxVerif Require Import Math.Exact Math.ExactProofs Math.FloatModel Math.C12Corr Math.SumErrorProofs Math.SumRunningProofs Math.MeanErrorProofs Math.MinMaxFloatProofs Math.FloatOpsProofs Math.VarianceFloatProofs Math.VarianceNonnegProofs Math.WelfordReal Math.WelfordErrorProofs Math.StddevErrorProofs.
 Import ListNotations.
 Open Scope Qc_scope.
 
@@ -321,6 +321,37 @@ Theorem C12_exact_welford_recurrences_over_R : forall (l : list R) (x : R), (1 <
 Proof. exact (fun l x H => conj (meanR_snoc l x H) (ssdR_snoc l x H)). Qed.
 Print Assumptions C12_exact_welford_recurrences_over_R.
 
+(* (h) stddev = sqrt (Welford variance), one more correctly rounded operation (no underflow term: the square root of a
+       positive binary64 number is never subnormal).  varR xs k = ssdR (first k of xs) / (k-1) is the exact sample
+       variance, wVb the bound of (g) on the emitted variance:
+         | stddev_k - sqrt (varR k) |  <=  sqrt (wVb k) (1 + u) + u sqrt (varR k)        (k >= 2; 0.0 exactly for k = 1) *)
+Theorem C12_float_stddev_error_bound : forall (h : hints) (l : list Coq.Floats.PrimFloat.float) (lo hi A Rr : R),
+  (- A <= lo)%R -> (hi <= A)%R -> (hi - lo <= Rr)%R ->
+  Forall (fun x => Coq.Floats.PrimFloat.is_finite x = true) l -> Forall (fun x => (lo <= FR x <= hi)%R) l ->
+  (Z.of_nat (length l) < 2 ^ 53)%Z ->
+  Forall state_fin (scan_states (wstep (FA h)) (wseed (FA h)) (map NF l)) ->
+  Forall2 (fun (v : num) (k : nat) =>
+             exists g, v = NF g /\ Coq.Floats.PrimFloat.is_finite g = true /\ (0 <= FR g)%R /\
+               (k = 1%nat -> g = Coq.Floats.PrimFloat.zero) /\
+               ((2 <= k)%nat ->
+                (Rabs (FR g - R_sqrt.sqrt (varR (map FR l) k))
+                 <= R_sqrt.sqrt (wVb A Rr (map FR l) k) * (1 + u53) + u53 * R_sqrt.sqrt (varR (map FR l) k))%R))
+          (stddev_run (FA h) false (map NF l)) (seq 1 (length l)).
+Proof. exact welford_stddev_error. Qed.
+Print Assumptions C12_float_stddev_error_bound.
+Theorem C12_float_stddev_reduce_error_bound : forall (h : hints) (l : list Coq.Floats.PrimFloat.float) (lo hi A Rr : R),
+  (- A <= lo)%R -> (hi <= A)%R -> (hi - lo <= Rr)%R -> l <> [] ->
+  Forall (fun x => Coq.Floats.PrimFloat.is_finite x = true) l -> Forall (fun x => (lo <= FR x <= hi)%R) l ->
+  (Z.of_nat (length l) < 2 ^ 53)%Z ->
+  Forall state_fin (scan_states (wstep (FA h)) (wseed (FA h)) (map NF l)) ->
+  exists g, stddev_run (FA h) true (map NF l) = [NF g] /\ Coq.Floats.PrimFloat.is_finite g = true /\ (0 <= FR g)%R /\
+    (length l = 1%nat -> g = Coq.Floats.PrimFloat.zero) /\
+    ((2 <= length l)%nat ->
+     (Rabs (FR g - R_sqrt.sqrt (varR (map FR l) (length l)))
+      <= R_sqrt.sqrt (wVb A Rr (map FR l) (length l)) * (1 + u53) + u53 * R_sqrt.sqrt (varR (map FR l) (length l)))%R).
+Proof. exact welford_stddev_reduce_error. Qed.
+Print Assumptions C12_float_stddev_reduce_error_bound.
+
 Theorem C12_float_unit_roundoff : u53 = (/ 2 ^ 53)%R.
 Proof. exact u53_value. Qed.
 Print Assumptions C12_float_unit_roundoff.
@@ -332,8 +363,8 @@ Print Assumptions C12_float_unit_roundoff.
    bounds for `sum` and `mean` (completion and every streaming value), `min`/`max` (exact), and for the Welford
    `variance` its sign (never negative), its special values (equal items, fewer than two items) and the magnitude of
    its error (C12_float_variance_error_bound*, completion and every streaming value, with a closed form).
-   NOT PROVED: the binary64 error of `stddev` beyond the fact that its sqrt is always defined (one more correctly
-   rounded operation on the variance bounded above), and the binary64 error of the two-pass formal.variance /
+   and for `stddev` (the C12_float_stddev_error_bound theorems).
+   NOT PROVED: the binary64 error of the two-pass formal.variance /
    formal.stddev (whose inner sums are CPython's compensated builtin sum); int items mixed with floats; for those the
    binary64 half is tied bit-exactly to the code and its error is measured against exact rationals by the oracle. *)
 Theorem C12_partial : forall (sq : Qc -> Qc) (xs : list Qc),
